@@ -2,6 +2,7 @@ package streamsim
 
 import (
 	"fmt"
+	"github.com/open-telemetry/otel-arrow/pkg/config"
 	"os"
 	"path/filepath"
 	"runtime"
@@ -61,6 +62,7 @@ type pairState struct {
 	nDecoded int
 	closed   bool
 	out      pairOut
+	shared   *sharedOptions // nil: this stream builds its own option values
 }
 
 func itemsHash(items []Item) uint64 {
@@ -71,18 +73,47 @@ func itemsHash(items []Item) uint64 {
 	return core.HashBytes([]byte(sortedJoin(ss)))
 }
 
-func (ps *pairState) create() {
-	ps.p = arrow_record.NewProducerWithOptions(ps.plan.opt.build(nil, nil)...)
-	switch ps.plan.consumerOpt {
+// sharedOptions hands the same option *values* to every stream of a run that
+// asks for the same configuration: one option list built once and passed to
+// several NewProducerWithOptions / NewConsumer calls is how a receiver or an
+// exporter creates its per-stream instances. An option must configure the
+// instance it is applied to, not carry state of its own.
+type sharedOptions struct {
+	mu   sync.Mutex // the free-running mode creates the streams on their own goroutines
+	prod map[string][]config.Option
+	cons map[string][]arrow_record.Option
+}
+
+func consumerOptions(kind string) []arrow_record.Option {
+	switch kind {
 	case "limit-small":
-		ps.c = arrow_record.NewConsumer(arrow_record.WithMemoryLimit(48 << 10))
+		return []arrow_record.Option{arrow_record.WithMemoryLimit(48 << 10)}
 	case "limit-large":
-		ps.c = arrow_record.NewConsumer(arrow_record.WithMemoryLimit(512 << 20))
+		return []arrow_record.Option{arrow_record.WithMemoryLimit(512 << 20)}
 	case "meter":
-		ps.c = arrow_record.NewConsumer(arrow_record.WithMeterProvider(&recMeterProvider{}))
-	default:
-		ps.c = arrow_record.NewConsumer()
+		return []arrow_record.Option{arrow_record.WithMeterProvider(&recMeterProvider{})}
 	}
+	return nil
+}
+
+func (ps *pairState) create() {
+	if sh := ps.shared; sh != nil {
+		pk := fmt.Sprintf("%+v", ps.plan.opt)
+		sh.mu.Lock()
+		if _, ok := sh.prod[pk]; !ok {
+			sh.prod[pk] = ps.plan.opt.build(nil, nil)
+		}
+		if _, ok := sh.cons[ps.plan.consumerOpt]; !ok {
+			sh.cons[ps.plan.consumerOpt] = consumerOptions(ps.plan.consumerOpt)
+		}
+		po, co := sh.prod[pk], sh.cons[ps.plan.consumerOpt]
+		sh.mu.Unlock()
+		ps.p = arrow_record.NewProducerWithOptions(po...)
+		ps.c = arrow_record.NewConsumer(co...)
+		return
+	}
+	ps.p = arrow_record.NewProducerWithOptions(ps.plan.opt.build(nil, nil)...)
+	ps.c = arrow_record.NewConsumer(consumerOptions(ps.plan.consumerOpt)...)
 }
 
 func (ps *pairState) encodeNext() {
@@ -172,6 +203,7 @@ func sameOut(a, b pairOut) string {
 func (r *run) runIndependence(e *Engine) {
 	t := r.tape
 	nPairs := 2 + t.Draw(core.Gen, 5)
+	shareOpts := t.Chance(core.Ext, 1, 3)
 	var plans []*pairPlan
 	for k := 0; k < nPairs; k++ {
 		pp := &pairPlan{opt: defaultOptions()}
@@ -199,6 +231,15 @@ func (r *run) runIndependence(e *Engine) {
 			pp.want = append(pp.want, itemsHash(b.canon()))
 		}
 		pp.consumerOpt = []string{"", "limit-small", "limit-large", "meter"}[t.Weighted(core.Cfg, 5, 2, 1, 1)]
+		if shareOpts && k > 0 {
+			// instances created from one option list, as a receiver / exporter does per stream
+			if t.Chance(core.Ext, 1, 2) {
+				pp.consumerOpt = plans[0].consumerOpt
+			}
+			if t.Chance(core.Ext, 1, 2) {
+				pp.opt = plans[0].opt
+			}
+		}
 		plans = append(plans, pp)
 	}
 	solo := make([]pairOut, nPairs)
@@ -206,8 +247,13 @@ func (r *run) runIndependence(e *Engine) {
 		solo[k] = runSolo(pp)
 	}
 	states := make([]*pairState, nPairs)
+	var shared *sharedOptions
+	if shareOpts {
+		shared = &sharedOptions{prod: map[string][]config.Option{}, cons: map[string][]arrow_record.Option{}}
+		r.probe("streams_created_from_shared_option_values")
+	}
 	for k := range states {
-		states[k] = &pairState{plan: plans[k]}
+		states[k] = &pairState{plan: plans[k], shared: shared}
 	}
 	if r.o.Race {
 		var wg sync.WaitGroup
